@@ -5,14 +5,15 @@ CONSTANTS
   P = 2
   L = 3
   Dirs = {0}
-  MaxOps = 3
+  MaxOps = 4
   MaxSegLen = 3
-  Cfgs <- MC_CfgsSmoke
+  Cfgs <- MC_CfgsQuick
+  Seed = 1
   TotalLimit = 0
   FinOnlyClosed = TRUE
   ReleaseSaved = TRUE
   CleanSkipFixed = TRUE
-  ExportMod = 1
+  ExportMod = 64
   ExportRem = 1
 INVARIANTS ImplSatisfiesProp HeapSane ContentMatchesSeq UsedExact NoFlags Export
 CHECK_DEADLOCK FALSE
